@@ -16,17 +16,19 @@
     final <lock> <height> <time> <seq,seq,…|_> -> 0|1
     flags <height> <time> <bip34> <bip65> <bip66> <csv> <segwit> <taproot> -> <n>
     weight <nowit:size,…|_>                  -> <n>
-    pre <rawLen> <ver> <hash32> <bits> <time> <now> <known n|g|d> <parent idx|-1> <parentIsLast> <lastHeight>
-        <testnet> <testnet4> <maxbits> <maxvalue> <bip34> <bip65> <bip66>
+    pre <rawLen> <ver> <hash32> <prevhash32> <bits> <time> <now> <known n | g<entry hash32> | d<entry hash32>> <parent idx|-1>
+        <parentIsLast> <lastHeight> <testnet> <testnet4> <maxbits> <maxvalue> <bip34> <bip65> <bip66>
                                              -> <dos> <maybelater> <code> <height> <mtp> | panic
+      (known / parent = the BlockIndex ENTRY the caller found under the 8-byte key; the entry's whole hash is given for
+       `known`, and taken from the node (`idx`) for the parent; the whole-hash comparisons are the model's)
     post <rawLen> <preParsed> <buildOk> <trusted> <height> <mtp> <time> <merkleroot>
          <bip34> <bip65> <bip66> <csv> <segwit> <taproot> <tx>*
                                              -> <code> <flags> | panic
       tx = txid,wtxid,lock,nowit,size,ins,in0script,outs,segwit,values   (see parseTx)
-    idx <key> <node idx>                     -> ok        (ch.BlockIndex[key] = node; key = first 8 hash bytes, LE number)
-    unidx <key>                              -> ok        (delete(ch.BlockIndex, key))
+    idx <hash32> <node idx>                  -> ok        (node.BlockHash = hash; ch.BlockIndex[hash.BIdx()] = node)
+    unidx <hash32>                           -> ok        (delete(ch.BlockIndex, hash.BIdx()))
     last <node idx>                          -> ok        (ch.SetLast)
-    cb <rawLen> <ver> <hash32> <hashKey> <parentKey> <bits> <time> <now> <testnet> <testnet4> <maxbits> <maxvalue>
+    cb <rawLen> <ver> <hash32> <prevhash32> <bits> <time> <now> <testnet> <testnet4> <maxbits> <maxvalue>
        <bip34> <bip65> <bip66> <csv> <segwit> <taproot> <preParsed> <buildOk> <buildAssigned> <trusted> <merkleroot> <tx>*
                                              -> <dos> <maybelater> <code> <bl.Height> <bl.MedianPastTime> <bl.VerifyFlags> <len(bl.Txs)|nil>
                                                 <#nodes> <len(BlockIndex)> <last>      | panic
@@ -39,12 +41,13 @@ open GocoinV GocoinV.Target GocoinV.Retarget GocoinV.BlockCheck
 
 structure St where
   nodes : Array (Node × Int) := #[]
+  hashes : Array Nat := #[]
   index : List (Nat × Nat) := []
   last : Nat := 0
 
 def St.chain (s : St) (idx : Int) : List Node := chainOf s.nodes (s.nodes.size + 1) idx
 
-def St.cs (s : St) : ChainSt Unit := { nodes := s.nodes, index := s.index, last := s.last, unspent := () }
+def St.cs (s : St) : ChainSt Unit := { nodes := s.nodes, hashes := s.hashes, index := s.index, last := s.last, unspent := () }
 
 def b01 (s : String) : Option Bool := if s == "1" then some true else if s == "0" then some false else none
 
@@ -128,7 +131,7 @@ def step (s : St) (toks : List String) : St × String :=
     match p.toInt?, h.toNat?, t.toNat?, b.toNat? with
     | some p, some h, some t, some b =>
       if p ≥ (s.nodes.size : Int) then bad
-      else ({ s with nodes := s.nodes.push ({ height := h, ts := t, bits := b }, p) }, s!"{s.nodes.size}")
+      else ({ s with nodes := s.nodes.push ({ height := h, ts := t, bits := b }, p), hashes := s.hashes.push 0 }, s!"{s.nodes.size}")
     | _, _, _, _ => bad
   | ["gnwr", idx, ts, tn, tn4, mb, mv] => reply do
       let idx ← idx.toInt?
@@ -162,17 +165,24 @@ def step (s : St) (toks : List String) : St × String :=
                                lockTime := 0, noWitSize := ← a.toNat?, size := ← b.toNat? } : Tx)
         | _ => none)
       pure s!"{blockWeight l}"
-  | ["pre", rawLen, ver, hash, bits, time, now, known, pidx, pil, lastH, tn, tn4, mb, mv, b34, b65, b66] => reply do
+  | ["pre", rawLen, ver, hash, prev, bits, time, now, known, pidx, pil, lastH, tn, tn4, mb, mv, b34, b65, b66] => reply do
       let hash ← Hex.decode hash
       if hash.length ≠ 32 then none
-      let known ← (if known == "n" then some none else if known == "g" then some (some true)
-                   else if known == "d" then some (some false) else none)
+      let prev ← Hex.decode prev
+      if prev.length ≠ 32 then none
+      let known : Option (Nat × Bool) ←
+        (if known == "n" then some none
+         else if known.startsWith "g" || known.startsWith "d" then do
+           let kh ← Hex.decode (known.drop 1).toString
+           if kh.length ≠ 32 then none
+           pure (some (leVal kh, known.startsWith "g"))
+         else none)
       let pidx ← pidx.toInt?
       let p : Params := { maxPowBits := ← mb.toNat?, maxPowValue := ← mv.toInt?, testnet := ← b01 tn, testnet4 := ← b01 tn4 }
       let cons ← parseCons b34 b65 b66 "0" "0" "0"
-      let i : PreIn := { rawLen := ← rawLen.toNat?, ver := ← ver.toNat?, hash := leVal hash, bits := ← bits.toNat?,
+      let i : PreIn := { rawLen := ← rawLen.toNat?, ver := ← ver.toNat?, hash := leVal hash, parentHash := leVal prev, bits := ← bits.toNat?,
                          time := ← time.toNat?, now := ← now.toInt?, known := known,
-                         parent := if pidx < 0 then none else some (s.chain pidx),
+                         parent := if pidx < 0 then none else some (s.cs.hashOf pidx.toNat, s.chain pidx),
                          parentIsLast := ← b01 pil, lastHeight := ← lastH.toNat? }
       match preCheckBlock p cons i with
       | none => pure "panic"
@@ -186,28 +196,34 @@ def step (s : St) (toks : List String) : St × String :=
       match postCheckBlock sha256d cons i with
       | none => pure "panic"
       | some (e, f) => pure s!"{e.code} {f}"
-  | ["idx", k, i] =>
-    match k.toNat?, i.toNat? with
-    | some k, some i => if i < s.nodes.size then ({ s with index := (k, i) :: s.index.filter (·.1 != k) }, "ok") else bad
+  | ["idx", h, i] =>
+    match Hex.decode h, i.toNat? with
+    | some h, some i =>
+      if h.length = 32 ∧ i < s.nodes.size then
+        let k := bidx (leVal h)
+        ({ s with hashes := s.hashes.setIfInBounds i (leVal h), index := (k, i) :: s.index.filter (·.1 != k) }, "ok")
+      else bad
     | _, _ => bad
-  | ["unidx", k] =>
-    match k.toNat? with
-    | some k => ({ s with index := s.index.filter (·.1 != k) }, "ok")
+  | ["unidx", h] =>
+    match Hex.decode h with
+    | some h => if h.length = 32 then ({ s with index := s.index.filter (·.1 != bidx (leVal h)) }, "ok") else bad
     | none => bad
   | ["last", i] =>
     match i.toNat? with
     | some i => if i < s.nodes.size then ({ s with last := i }, "ok") else bad
     | none => bad
-  | "cb" :: rawLen :: ver :: hash :: hkey :: pkey :: bits :: time :: now :: tn :: tn4 :: mb :: mv :: b34 :: b65 :: b66 :: csv :: sw :: tap ::
+  | "cb" :: rawLen :: ver :: hash :: prev :: bits :: time :: now :: tn :: tn4 :: mb :: mv :: b34 :: b65 :: b66 :: csv :: sw :: tap ::
       pp :: bo :: ba :: tr :: root :: txs => reply do
       let hash ← Hex.decode hash
       if hash.length ≠ 32 then none
+      let prev ← Hex.decode prev
+      if prev.length ≠ 32 then none
       let p : Params := { maxPowBits := ← mb.toNat?, maxPowValue := ← mv.toInt?, testnet := ← b01 tn, testnet4 := ← b01 tn4 }
       let cons ← parseCons b34 b65 b66 csv sw tap
       let txs ← txs.mapM parseTx
       let pp ← b01 pp
-      let bl : BlockObj := { rawLen := ← rawLen.toNat?, ver := ← ver.toNat?, hash := leVal hash, hashKey := ← hkey.toNat?,
-                             parentKey := ← pkey.toNat?, bits := ← bits.toNat?, time := ← time.toNat?, merkleRoot := ← Hex.decode root,
+      let bl : BlockObj := { rawLen := ← rawLen.toNat?, ver := ← ver.toNat?, hash := leVal hash, parentHash := leVal prev,
+                             bits := ← bits.toNat?, time := ← time.toNat?, merkleRoot := ← Hex.decode root,
                              trusted := ← b01 tr, build := if (← b01 ba) then some txs else none, buildOk := ← b01 bo, height := 0, mtp := 0,
                              txs := if pp then some txs else none, verifyFlags := 0 }
       match checkBlockM p cons sha256d (← now.toInt?) s.cs bl with
